@@ -98,6 +98,10 @@ CHECKS = {
             'For every conversation inside the bounds, for all 2x2 implementation pairs and the three transport choices: both sides see one connect, agree on the transport, every message sent by either side (bursts up to the bound, text/JSON/binary) is received exactly once and equal, '
             'idle connections survive several heartbeat cycles, and a disconnect by either side is observed exactly once on each side.',
             'Trusted: CrossHair (selector enumeration), z3, the simulated environment and client transport stubs.', '§3 C10'),
+    'C08': (SIM + ' (client side); the real Client and AsyncClient against a scripted server: solver-enumerated handshake outcome x end cause x second connect cycle',
+            'For every combination in the tables, for both clients: connect() raises ConnectionError and leaves a disconnected, reusable client, or fires connect once and adopts sid / transport / timing; every established connection ends with exactly one disconnect of the right reason class, '
+            'state disconnected, sid cleared, no later event, all background tasks finished (wait() returns), connect() works again; send()/disconnect() on a disconnected client do nothing.',
+            'Trusted: CrossHair (selector enumeration), z3, the kernel, the client transport stubs and the scripted server.', '§3 C08'),
 }
 
 NOT_BUILT = 'check not built yet in this round (see DESIGN.md §8 build order); not claimed until it runs'
